@@ -298,6 +298,11 @@ pub trait Property: Sync {
     fn workers(&self, _tier: Tier) -> usize {
         16
     }
+    /// can the coverage-guided fuzz target extend this property's thorough tier?
+    /// (in-process judgement, no real binaries involved)
+    fn fuzzable(&self) -> bool {
+        false
+    }
     /// proptest shrink budget (0 for campaigns whose single case is already expensive
     /// and whose violations carry their own small reproduction)
     fn max_shrink_iters(&self) -> u32 {
@@ -627,6 +632,14 @@ pub fn run_supervisor(p: &dyn Property, a: &RunArgs) -> i32 {
         }
     }
 
+    // 2b. thorough tier: coverage-guided extension on the same decoder and oracle
+    let mut fuzz_info: Option<Value> = None;
+    if a.tier == Tier::Thorough && p.fuzzable() {
+        let (info, found) = run_fuzz(p, a.seed, &dir, &rel);
+        fuzz_info = Some(info);
+        violations.extend(found);
+    }
+
     // 3. verdicts: known findings are reported, everything else is a violation
     let mut real: Vec<Violation> = vec![];
     let mut seen_real: HashSet<u64> = HashSet::new();
@@ -669,6 +682,9 @@ pub fn run_supervisor(p: &dyn Property, a: &RunArgs) -> i32 {
         "per_profile_evaluations": per_profile,
         "workers": n * plan.len(),
     });
+    if let Some(f) = fuzz_info {
+        coverage["fuzz"] = f;
+    }
     if let Some(note) = p.exhaustive_note(a.tier) {
         coverage["exhaustive"] = json!(true);
         coverage["exhaustive_space"] = json!(note);
@@ -732,6 +748,102 @@ pub fn run_supervisor(p: &dyn Property, a: &RunArgs) -> i32 {
     }
     let _ = std::fs::remove_dir_all(&dir);
     0
+}
+
+/// libFuzzer campaign: N processes on a shared corpus seeded with random tapes; every
+/// artifact is re-judged through the normal replay path (in a child process).
+fn run_fuzz(p: &dyn Property, seed: u64, dir: &Path, engine: &str) -> (Value, Vec<Violation>) {
+    let bin = std::env::var("FMLV_FUZZ_BIN").unwrap_or_default();
+    if bin.is_empty() || !Path::new(&bin).exists() {
+        return (json!({"skipped": "fuzz target not built (nightly toolchain / cargo-fuzz build failed or FMLV_FUZZ_BIN unset)"}), vec![]);
+    }
+    let secs: u64 = std::env::var("FMLV_FUZZ_SECS").ok().and_then(|s| s.parse().ok()).unwrap_or(120);
+    let procs: usize = std::env::var("FMLV_FUZZ_PROCS").ok().and_then(|s| s.parse().ok()).unwrap_or(12);
+    let corpus = dir.join("fuzz-corpus");
+    let arts = dir.join("fuzz-artifacts");
+    let _ = std::fs::create_dir_all(&corpus);
+    let _ = std::fs::create_dir_all(&arts);
+    for k in 0..64u64 {
+        let len = 40 + (mix(seed ^ k) % (p.max_tape() as u64 - 40).max(1)) as usize;
+        let tape = crate::tools::random_tape(mix(seed.wrapping_mul(31) ^ (k << 8)), len);
+        let _ = std::fs::write(corpus.join(format!("seed-{}", k)), tape);
+    }
+    let mut kids = vec![];
+    for i in 0..procs {
+        let c = std::process::Command::new(&bin)
+            .arg(&corpus)
+            .arg(format!("-max_total_time={}", secs))
+            .arg("-detect_leaks=0")
+            .arg("-len_control=0")
+            .arg(format!("-max_len={}", p.max_tape()))
+            .arg("-print_final_stats=1")
+            .arg(format!("-seed={}", (mix(seed ^ (i as u64 + 1)) % 0x7fff_fffe) + 1))
+            .arg(format!("-artifact_prefix={}/w{}-", arts.display(), i))
+            .env("FMLV_PROP", p.id())
+            .stdout(std::process::Stdio::null())
+            .stderr(std::process::Stdio::piped())
+            .spawn();
+        if let Ok(c) = c {
+            kids.push(c);
+        }
+    }
+    let mut execs = 0u64;
+    let mut new_units = 0u64;
+    let mut cov = 0u64;
+    let started = kids.len();
+    for c in kids {
+        if let Ok(o) = c.wait_with_output() {
+            let txt = String::from_utf8_lossy(&o.stderr);
+            for line in txt.lines() {
+                if let Some(v) = line.strip_prefix("stat::number_of_executed_units:") {
+                    execs += v.trim().parse::<u64>().unwrap_or(0);
+                }
+                if let Some(v) = line.strip_prefix("stat::new_units_added:") {
+                    new_units += v.trim().parse::<u64>().unwrap_or(0);
+                }
+                if let Some(pos) = line.find(" cov: ") {
+                    if let Some(n) = line[pos + 6..].split(' ').next().and_then(|x| x.parse::<u64>().ok()) {
+                        cov = cov.max(n);
+                    }
+                }
+            }
+        }
+    }
+    let corpus_size = std::fs::read_dir(&corpus).map(|r| r.count()).unwrap_or(0);
+    let mut found = vec![];
+    let mut artifacts = 0;
+    if let Ok(rd) = std::fs::read_dir(&arts) {
+        for e in rd.flatten() {
+            artifacts += 1;
+            let bytes = std::fs::read(e.path()).unwrap_or_default();
+            let f = dir.join(format!("artifact-{}.json", artifacts));
+            let body = json!({"property": p.id(), "case": {"tape": hex(&bytes)}, "note": "libFuzzer artifact"});
+            let _ = std::fs::write(&f, serde_json::to_string(&body).unwrap());
+            match replay_in_child(engine, p.id(), &f) {
+                ChildVerdict::Ok => {}
+                ChildVerdict::Violation(vs) => found.extend(vs),
+                ChildVerdict::Crash(sig) => found.push(
+                    Violation::new("native-crash", format!("fuzz artifact kills the checker process (signal {})", sig), json!({"tape": hex(&bytes)})).with("signal", sig.to_string()),
+                ),
+                ChildVerdict::Error(_) => {}
+            }
+        }
+    }
+    (
+        json!({
+            "engine": "libFuzzer (cargo-fuzz, nightly, ASan) on the same tape decoder and in-target oracle",
+            "processes": started,
+            "seconds_each": secs,
+            "executions": execs,
+            "new_units_added": new_units,
+            "corpus_size": corpus_size,
+            "max_cov_counters": cov,
+            "artifacts": artifacts,
+            "artifacts_confirmed_as_violations": found.len(),
+            "note": "campaigns are only approximately reproducible (-seed); the saved artifact re-judged by --replay is the reproducible unit"
+        }),
+        found,
+    )
 }
 
 fn merge_extra(extra: &mut BTreeMap<String, Value>, k: &str, x: &Value) {
